@@ -51,15 +51,14 @@ def o_common(story, recs, report):
 
 
 def tainted_upto(recs):
-    """taint[k]: some earlier navigation failed half-way and was not undone at once, so what is shown may be
-    older than the position/used set (the engine is usable, but 'the current situation' is ambiguous)."""
+    """taint[k]: an earlier navigation failed half-way.  Its post-state (position ahead of what is shown, the
+    one-time mark already set) can be reached again by redo, so 'the current situation' is ambiguous from
+    then on; the rule 'a used one-time choice is not offered' is judged on untainted prefixes only."""
     t, out = False, []
-    for k, r in enumerate(recs):
+    for r in recs:
         out.append(t)
         if r["obs"][0] == "exc" and r["obs"][1] != "IndexError":
-            nxt = recs[k + 1] if k + 1 < len(recs) else None
-            if not (nxt and nxt["op"][0] == "undo" and nxt["obs"] == ("bool", True)):
-                t = True
+            t = True
     return out
 
 
